@@ -376,7 +376,7 @@ static int _GD_Change(DIRFILE *D, const char *field_code, const gd_entry_t *N,
         void *buffer2;
         struct encoding_t *enc;
 
-        if (!(Q.flags & GD_EN_CALC))
+        if (Q.scalar[0] && !(Q.flags & GD_EN_CALC))
           if (gd_get_constant(D, Q.scalar[0], GD_UINT_TYPE, &Q.EN(raw,spf)))
             break;
 
